@@ -28,7 +28,7 @@ EXPLANATION = (
 )
 
 
-def run(ctx, ck) -> None:
+def _structural(ctx, ck) -> None:
     world, table = ctx.world, ctx.table
     cls = table.get(f'{DENSE}.DenseBlockDiagonalOperator')
     mv = cls.own.get('mv')
@@ -242,6 +242,185 @@ def run(ctx, ck) -> None:
     ck.floor('E3', len(raw) + len(pfacts), 6, 'rejection guards')
 
 
+# ---------------------------------------------------------------------- E7: bounded exhaustive adjointness of the rewriting
+ALPHABET = 'ijkl'
+
+
+def _tokens(s: str) -> list[str]:
+    out, i = [], 0
+    while i < len(s):
+        if s.startswith('...', i):
+            out.append('...')
+            i += 3
+        else:
+            out.append(s[i])
+            i += 1
+    return out
+
+
+def _split(s) -> tuple[list[str], list[str], list[str]] | None:
+    if not isinstance(s, str) or s.count(',') != 1 or s.count('->') != 1:
+        return None
+    a, rest = s.split(',')
+    b, c = rest.split('->')
+    return _tokens(a), _tokens(b), _tokens(c)
+
+
+def _is_adjoint(orig, new) -> bool:
+    """einsum(L2, R2 -> O2)(B, y) is the adjoint in x of einsum(L, R -> O)(B, x) for every block array B exactly when the
+    two contraction patterns are isomorphic: one injective renaming of the axis letters maps L to L2 (same block array,
+    axis by axis), O to R2 (y takes the place of the result) and R to O2 (the result takes the place of x); an ellipsis
+    stands for the same batch axes and maps to itself."""
+    (L, R, O), (L2, R2, O2) = orig, new
+    phi: dict[str, str] = {}
+    for A, B in ((L, L2), (O, R2), (R, O2)):
+        if len(A) != len(B):
+            return False
+        for a, b in zip(A, B):
+            if (a == '...') != (b == '...') or phi.setdefault(a, b) != b:
+                return False
+    return len(set(phi.values())) == len(phi)
+
+
+def _restricted_growth(n: int, k: int):
+    def rec(prefix, m):
+        if len(prefix) == n:
+            yield prefix
+            return
+        for c in range(min(m + 1, k)):
+            yield from rec(prefix + [c], max(m, c + 1))
+
+    yield from rec([], 0)
+
+
+def _subscript_family(thorough: bool):
+    """Every two-operand explicit subscript string up to renaming of the letters: blocks of 2-3 axes, input and result of 1-2
+    axes, at most four distinct letters (repeats included), without ellipsis or with one in (all three | input and result |
+    blocks and result) at every position (quick tier: input/result ellipsis leading or trailing only)."""
+    import itertools
+
+    def with_ellipsis(tok, present, everywhere):
+        if not present:
+            yield tok
+            return
+        for p in (range(len(tok) + 1) if everywhere else sorted({0, len(tok)})):
+            yield tok[:p] + ['...'] + tok[p:]
+
+    for nl, nr, no in itertools.product((2, 3), (1, 2), (1, 2)):
+        for g in _restricted_growth(nl + nr + no, len(ALPHABET)):
+            letters = [ALPHABET[c] for c in g]
+            L, R, O = letters[:nl], letters[nl:nl + nr], letters[nl + nr:]
+            if len(set(O)) < len(O) or not set(O) <= set(L) | set(R):
+                continue  # not a valid einsum
+            for el in ((0, 0, 0), (1, 1, 1), (0, 1, 1), (1, 0, 1)):
+                if not thorough and el in ((1, 0, 1), (0, 1, 1)):
+                    continue
+                for L_ in with_ellipsis(L, el[0], True):
+                    for R_ in with_ellipsis(R, el[1], thorough):
+                        for O_ in with_ellipsis(O, el[2], thorough):
+                            if not thorough and el[1] and (R_[0] == '...') != (O_[0] == '...'):
+                                continue  # quick tier: input and result ellipsis both leading or both trailing
+                            yield L_, R_, O_
+
+
+def _adjointness(ctx, ck, cls) -> bool:
+    """E7.  The rewriting function is interpreted (sa/axinterp.py: the checker's own evaluator of the syntax tree, nothing of
+    the repository is imported) on every subscript string of a bounded family that is closed under renaming of the letters -
+    the function only compares letters, so one representative per renaming class is exhaustive for that size.  Whatever it
+    returns must be an adjoint of the input string (_is_adjoint); a string with exactly one contracted letter, exactly one
+    free block letter and no repeated block letter, whose adjoint is the exchange of those two letters in the blocks, must be
+    accepted.  Returns True when every string was decided."""
+    from .. import run as _run
+    from ..axinterp import Env, Func, Interp, Raised, Undecided
+
+    world, table = ctx.world, ctx.table
+    if _run.CONTROL_EXPECT and not _run.CONTROL_EXPECT.endswith('E7'):
+        return False  # a positive control of another rule is being replayed: the structural clauses stand alone
+    r = table.resolve(cls, '_get_transposed_subscripts')
+    if r is None or not isinstance(r.node, ast.FunctionDef):
+        raise AnalysisError('anchor vanished: DenseBlockDiagonalOperator._get_transposed_subscripts')
+    fn = r.node
+    static = any(ast.unparse(d) == 'staticmethod' for d in fn.decorator_list)
+    it = Interp(world, table, budget=10**9)
+    f = Func(fn, Env(module_of(fn)), None if static else table and None, r.found_on)
+    thorough = getattr(ctx, 'tier', None) == 'thorough' or bool(__import__('os').environ.get('VERIF_TIER') == 'thorough')
+    wrong: list[str] = []
+    refused: list[str] = []
+    undecided: list[str] = []
+    n = accepted = rejected = must = 0
+    for L, R, O in _subscript_family(thorough):
+        s = ''.join(L) + ',' + ''.join(R) + '->' + ''.join(O)
+        n += 1
+        Ls = [x for x in L if x != '...']
+        contracted = (set(Ls) & set(R)) - set(O) - {'...'}
+        free = (set(Ls) & set(O)) - set(R) - {'...'}
+        required = False
+        if len(contracted) == 1 and len(free) == 1 and len(set(Ls)) == len(Ls):
+            a, b = next(iter(contracted)), next(iter(free))
+            swapped = [b if x == a else a if x == b else x for x in L]
+            required = _is_adjoint((L, R, O), (swapped, R, O))
+        must += required
+        it.steps = 0
+        try:
+            res = it.call_function(f, [s] if static else [None, s], {})
+        except Raised:
+            rejected += 1
+            if required:
+                refused.append(s)
+            continue
+        except Undecided as exc:
+            undecided.append(f'{s}: {exc}')
+            if len(undecided) > 5:
+                break
+            continue
+        if _run.CONTROL_EXPECT and (wrong or refused):
+            break  # replaying a positive control: one counterexample is enough
+        new = _split(res)
+        if new is None:
+            if res is None or isinstance(res, str):
+                wrong.append(f'{s!r} gives {res!r}')
+            else:
+                undecided.append(f'{s}: the result is not a string the evaluator can follow')
+            continue
+        accepted += 1
+        if not _is_adjoint((L, R, O), new):
+            wrong.append(f'{s!r} gives {res!r}')
+    if undecided:
+        ck.incomplete('E7', fn, f'the rewriting could not be evaluated for some subscript strings, e.g. {undecided[0]}', instance='adjointness of the rewriting')
+        return False
+    ck.expect('E7', not wrong, fn,
+              f'all {accepted} subscript strings that are accepted (of {n} strings up to renaming: blocks of 2-3 axes, input/result of 1-2 axes, <= 4 letters, every ellipsis placement) are rewritten into an adjoint',
+              f'{len(wrong)} of {n} subscript strings are transposed incorrectly, e.g. {"; ".join(wrong[:3])}: the rewritten subscripts do not denote the adjoint (the injective renaming of axis letters that maps '
+              'blocks to blocks, result to input and input to result does not exist)', instance='adjointness of the rewriting')
+    ck.expect('E7', not refused, fn, f'all {must} strings with one contracted letter and one free block letter whose adjoint is the exchange of the two are accepted',
+              f'{len(refused)} subscript strings with a single contracted axis and a single free block axis are refused although exchanging the two letters in the blocks is their adjoint, e.g. {refused[:3]}',
+              instance='supported strings accepted')
+    ck.counts['E7:subscript strings (up to renaming)'] = n
+    ck.counts['E7:accepted'] = accepted
+    ck.counts['E7:rejected'] = rejected
+    ck.floor('E7', accepted, 100, 'accepted subscript strings')
+    return True
+
+
+def run(ctx, ck) -> None:
+    cls = ctx.table.get(f'{DENSE}.DenseBlockDiagonalOperator')
+    decided = _adjointness(ctx, ck, cls)
+    before = len(ck.obs)
+    _structural(ctx, ck)
+    if decided:
+        # the structural clauses on the rewriting function (E3 letter sets / guards, E6 derived subscripts) describe one way of
+        # writing it; where they cannot follow the code, or disagree with the semantic decision above, E7 stands
+        kept = []
+        for i, o in enumerate(ck.obs):
+            about_rewriter = '_get_transposed_subscripts' in o.construct and o.rule.endswith(('E3', 'E6'))
+            if i >= before and about_rewriter and o.status != 'ok':
+                ck.note(f'{o.rule} [{o.construct}] not decided structurally ({o.status}: {o.how[:120]}); superseded by E7')
+                continue
+            kept.append(o)
+        ck.obs[:] = kept
+        ck.floors[:] = [f for f in ck.floors if not (f[0].endswith(('E3', 'E6')) and f[1] < f[2])]
+
+
 def _e6(ck, rew, lefts_n, rights_n, results_n, sum_set, tr_set) -> None:
     """E6: the returned subscripts are *derived* to be (blocks with the two letters exchanged, input, result).
 
@@ -355,8 +534,8 @@ def _role_order(t, subs, blocks, x, env):
 def controls(world: World) -> list[Control]:
     return [
         Control('roles-swapped', lambda w: edit_def(w, DENSE, 'DenseBlockDiagonalOperator.mv', lambda fn: replace_expr(fn, 'jax.tree.map(ft.partial(jnp.einsum, self.subscripts), self.blocks, x)', 'jax.tree.map(ft.partial(jnp.einsum, self.subscripts), x, self.blocks)')), 'C14.E1'),
-        Control('layout-guard-weakened', lambda w: edit_def(w, DENSE, 'DenseBlockDiagonalOperator._get_transposed_subscripts', lambda fn: replace_expr(fn, 'expected_results != rights', 'set(expected_results) != set(rights)')), 'C14.E3'),
-        Control('half-swap', lambda w: edit_def(w, DENSE, 'DenseBlockDiagonalOperator._get_transposed_subscripts', lambda fn: replace_stmt(fn, 'lefts_as_list[transpose_axis_number] = sum_axis', 'lefts_as_list[transpose_axis_number] = transpose_axis')), 'C14.E6'),
-        Control('several-free-axes-accepted', lambda w: edit_def(w, DENSE, 'DenseBlockDiagonalOperator._get_transposed_subscripts', lambda fn: remove_stmt(fn, 'if len(transpose_axis_as_set) > 1:', prefix=True)), 'C14.E3'),
+        Control('layout-guard-weakened', lambda w: edit_def(w, DENSE, 'DenseBlockDiagonalOperator._get_transposed_subscripts', lambda fn: replace_expr(fn, 'expected_results != rights', 'set(expected_results) != set(rights)')), 'C14.E7'),
+        Control('half-swap', lambda w: edit_def(w, DENSE, 'DenseBlockDiagonalOperator._get_transposed_subscripts', lambda fn: replace_stmt(fn, 'lefts_as_list[transpose_axis_number] = sum_axis', 'lefts_as_list[transpose_axis_number] = transpose_axis')), 'C14.E7'),
+        Control('repeated-block-letter-accepted', lambda w: edit_def(w, DENSE, 'DenseBlockDiagonalOperator._get_transposed_subscripts', lambda fn: remove_stmt(fn, 'if len(set(left_letters)) != len(left_letters):', prefix=True)), 'C14.E7'),
         Control('transpose-input-structure', lambda w: edit_def(w, DENSE, 'DenseBlockDiagonalOperator.transpose', lambda fn: replace_expr(fn, 'self.out_structure()', 'self.in_structure()')), 'C14.E2'),
     ]
